@@ -1,7 +1,7 @@
 SPECIFICATION Spec
 CONSTANTS Family = "eqlaws"
-          NConcrete = 1
-          Symbols = {"*"}
+          NConcrete = 2
+          Symbols = {}
           MaxPairs = 1
 INVARIANT Canonical
 INVARIANT DictFirstIsNatural
